@@ -73,6 +73,17 @@ def _gen_c(ctx):
     for k in range(n_tx):
         t, cls = rig.gen_tx(rnd, big=(k % 97 == 5))
         sers.append((rig.ref_ser(t), cls))
+    # script lengths at the top/bottom of every CompactSize width class, in witness transactions (the txid is taken from a
+    # re-serialisation there) and legacy ones
+    for L in (252, 253, 254, 65535, 65536):
+        for seg in (True, False):
+            t, cls = rig.gen_tx(rnd, counts=(1, 1), segwit=seg)
+            t2 = rig.mk_tx(int.from_bytes(bytes(t["version"]), "little"), [(bytes(t["ins"][0]["txid"]), int.from_bytes(bytes(t["ins"][0]["vout"]), "little"), rnd.randbytes(L if seg else 3), int.from_bytes(bytes(t["ins"][0]["seq"]), "little"))],
+                           [(int.from_bytes(bytes(t["outs"][0]["value"]), "little"), rnd.randbytes(3 if seg else L))],
+                           [[rnd.randbytes(71), rnd.randbytes(33)]] if seg else [], int.from_bytes(bytes(t["locktime"]), "little"))
+            sers.append((rig.ref_ser(t2), {**cls, "max_script": L, "boundary_len": L}))
+            t3 = rig.mk_tx(2, [(rnd.randbytes(32), 1, b"", 0xFFFFFFFE)], [(1000, rnd.randbytes(L))], [[rnd.randbytes(72)]] if seg else [], 0)
+            sers.append((rig.ref_ser(t3), {**cls, "max_script": L, "boundary_len": L}))
     for counts in ([(253, 1)] if quick else [(253, 1), (1, 253), (300, 2)]):
         t, cls = rig.gen_tx(rnd, counts=counts, segwit=True)
         sers.append((rig.ref_ser(t), cls))
